@@ -1,7 +1,7 @@
 #!/bin/bash
 # focus.sh <bin> <prop> <secs> <shards> [engine args...] : run shards of one engine directly and summarise.
 BIN=$1; PROP=$2; SECS=$3; N=$4; shift 4
-W=/verif/work/focus-$$; mkdir -p $W
+(cd /verif/harness && cargo build --offline --profile verif 2>&1 | grep -E "^error" -A8); W=/verif/work/focus-$$; mkdir -p $W
 for i in $(seq 0 $((N-1))); do
   /verif/harness/target/verif/$BIN --prop $PROP --tier quick --seed ${VERIF_SEED:-7} --shard $i --shards $N --out $W/$i.json --budget-s $SECS --replay-dir /verif/replays "$@" 2>$W/$i.err &
 done
